@@ -145,6 +145,11 @@ structure Facts where
   rerun : Bool
   /-- `proj.dryrun` -/
   dryRun : Bool
+  /-- `IsTarget(label)`: a function target (not a source file) -/
+  isTarget : Bool
+  /-- the in-progress record (`Rerun = true`) written by `proj.saveTargetInfo` before the body of a function
+  target runs was written without error -/
+  preSaveOk : Bool
   /-- `t.target.evaluate()` returned no error -/
   bodyOk : Bool
   /-- `proj.saveTargetInfo` after a successful body returned no error -/
@@ -170,15 +175,17 @@ def evaluate (f : Facts) : List Ev × Bool :=
     if f.upToDateErr then ([.failed], true)                   -- TargetFailed(label, err); return err
     else if f.skip then ([.upToDate], false)                  -- TargetUpToDate(label); return nil
     else if f.dryRun then ([.evaluating, .succeeded], false)  -- TargetEvaluating; TargetSucceeded(label, true)
+    else if f.isTarget && !f.preSaveOk then ([.evaluating, .failed], true)  -- the in-progress record cannot be written
     else if !f.bodyOk then ([.evaluating, .failed], true)     -- TargetEvaluating; evaluate() fails; TargetFailed
     else if !f.saveOk then ([.evaluating, .failed], true)     -- saveTargetInfo fails; TargetFailed
     else ([.evaluating, .succeeded], false)                   -- TargetSucceeded(label, changed)
 
 /-- the body (`t.target.evaluate()`) is called -/
 def bodyRuns (f : Facts) : Bool :=
-  (depLoop f.deps).isNone && !f.upToDateErr && !f.skip && !f.dryRun
+  (depLoop f.deps).isNone && !f.upToDateErr && !f.skip && !f.dryRun && !(f.isTarget && !f.preSaveOk)
 
-/-- the body is called, or would be if this were not a dry run -/
+/-- the decision to run the body has been taken: it is called, or would be if this were not a dry run (and, for
+a function target, if the in-progress record can be written) -/
 def bodyWouldRun (f : Facts) : Bool :=
   (depLoop f.deps).isNone && !f.upToDateErr && !f.skip
 
